@@ -84,7 +84,8 @@ PROP = dict(
                   "Go race detector (-race) and the harness tty's probe counter standing for the output stream"],
     assumptions=["Init returns before the Screen is shared with other goroutines (accesses in the constructor and in Init before engage are not concurrent)",
                  "transform.Transformer Reset/Transform mutate the transformer (interface contract) — modelled as the pseudo-field encoder.state/decoder.state",
-                 "the Tty implementation is itself safe for one concurrent Read and Write (FakeTty is)"],
+                 "the Tty implementation is itself safe for one concurrent Read and Write (FakeTty is)",
+                 "the evaluator methods of the shared *terminfo.Terminfo (t.ti.TParm / TGoto / TColor / TPuts) may keep scratch space or variables per entry or per process — modelled as writes of the pseudo-field ti.eval, which the discipline requires under the screen lock (all of them are on the tree as it is); engine race always runs SetClipboard against Show / Sync / SetTitle / SetSize / GetClipboard on the XTermLike entry obtained through LookupTerminfo and attributes a race inside package terminfo through the tscreen.go call site"],
 )
 META = dict(
     technique="Lean 4 lockset theorem for any number of mutexes (generic over thread counts and schedules) + kernel-evaluated discipline check (for every field the lock sets of its accesses have a common mutex) over lock facts regenerated from the source by a go/ast translator; Go race detector validates the extraction both ways and is the oracle on the real code",
